@@ -846,13 +846,20 @@ qb_rb_create_from_file(int32_t fd, uint32_t flags)
 	 * 2. 3. read & write pointers
 	 */
 	n_read = read(fd, &write_pt, sizeof(uint32_t));
-	assert(n_read == sizeof(uint32_t));
+	if (n_read != sizeof(uint32_t)) {
+		qb_util_perror(LOG_ERR, "Unable to read blackbox file header");
+		return NULL;
+	}
 	total_read += n_read;
 
 	n_read = read(fd, &read_pt, sizeof(uint32_t));
-	assert(n_read == sizeof(uint32_t));
+	if (n_read != sizeof(uint32_t)) {
+		qb_util_perror(LOG_ERR, "Unable to read blackbox file header");
+		return NULL;
+	}
 	total_read += n_read;
-	if (write_pt > st.st_size || read_pt > st.st_size) {
+	/* the pointers are indexes of words inside the ring */
+	if (write_pt >= word_size || read_pt >= word_size) {
 		qb_util_perror(LOG_ERR, "Invalid pointers read from blackbox header");
 		return NULL;
 	}
